@@ -36,6 +36,7 @@ def run_single(prop, tier, seed, shard, nshards, out=None, replay_case=None):
     import logging
 
     logging.disable(logging.NOTSET)
+    logging.getLogger().addHandler(logging.NullHandler())  # keep the library's warnings off stderr (C02 captures them itself)
     mod = load_check(prop)
     rec = Recorder(prop, tier, seed, shard, nshards)
     rec.level = getattr(mod, "LEVEL", "exploration")
